@@ -16,6 +16,12 @@
      * whole operations / histories (step, run_all with the two raise sites made parameters are equal to the real
        ones): `…_partial`, see there for the one hypothesis that is not derived from `parse` for arbitrary
        extractors.
+     * binding IS Python's call rule (fixes F07d: a parameter named arg_<digits> is refused by the compiler, F07e: a
+       call that repeats a keyword is refused by the validator): for every validated call site of a compiled story
+       the keyword names are distinct (the association list is the dict), the argument dict the engine builds has
+       the positional markers arg_0..arg_{k-1} and no other (positional_prefix, until now a hypothesis of
+       bind_is_python_call, is a CONSEQUENCE), and bind_arguments = py_bind = py_call, Python's call rule stated
+       on the positional values and keyword pairs themselves.  Third part of this file.
    What the call-shape phase of harness/engine_props.py still carries: `shape_agrees` / `blank_shape` -- that the
    two oracles describe the same call, i.e. that the compiler (ast.parse("_temp_(" + args + ")")) and the engine
    (ast.parse("__directive__(" + args + ")"), skipped for a blank string) read an argument string with Python's
@@ -57,7 +63,8 @@ Print Assumptions params_shadow_globals.
 (* binding follows Python's call rule (py_bind, Proofs/EngineParams.v): parameter number i takes positional
    argument i when there is one, else the keyword argument of its name, else its default evaluated with the
    earlier parameters visible, else ValueError.  positional_prefix: the positional arguments are arg_0..arg_{k-1},
-   which is how _parse_directive_args numbers them. *)
+   which is how _parse_directive_args numbers them -- for ANY dict; for the dict of a validated call of a compiled
+   story the hypothesis is discharged (validated_call_positional_prefix, compiled_*_binds_like_python below). *)
 Theorem bind_is_python_call : forall orc ctx0 ps ad k,
   positional_prefix ad k -> bind_arguments orc ctx0 ps ad 0 [] = py_bind orc ctx0 ps ad.
 Proof. exact bind_arguments_spec. Qed.
@@ -276,6 +283,143 @@ Theorem balanced_args_roundtrip : forall tg a,
 Proof. exact balanced_roundtrip. Qed.
 Print Assumptions balanced_args_roundtrip.
 
+(* ======================================================================================== *)
+(* Binding is Python's call rule for every call a compiled story can make (fixes F07d, F07e).
+
+   py_call orc ctx ps pos kws: parameter number i takes positional value i when there is one, else the value of the
+   keyword of its name, else its default evaluated with the earlier parameters visible, else ValueError -- stated on
+   the call (pos, kws), without the arg_<i> keys.  py_bind (bind_is_python_call) reads the positional values through
+   those keys, which is only faithful when no keyword or parameter is named like one. *)
+
+(* F07d: the compiler refuses a parameter named arg_<digits> (is_positional_marker = re.fullmatch(r"arg_\d+")) *)
+Theorem reserved_parameter_name_rejected : forall s ps,
+  parse_passage_params s = POk ps -> forall q, In q ps -> is_positional_marker (pname q) = false.
+Proof. exact parse_passage_params_unreserved. Qed.
+Print Assumptions reserved_parameter_name_rejected.
+
+(* ... every arg_<i> is such a name, and i |-> arg_<i> is injective *)
+Theorem positional_markers_are_reserved : forall i, is_positional_marker (arg_key i) = true.
+Proof. exact arg_key_is_marker. Qed.
+Print Assumptions positional_markers_are_reserved.
+Theorem positional_markers_distinct : forall i j, arg_key i = arg_key j -> i = j.
+Proof. exact arg_key_inj. Qed.
+Print Assumptions positional_markers_distinct.
+
+(* every compiled story: no parameter of any passage is named like a positional marker *)
+Theorem compiled_parameter_names_not_reserved : forall pp is_call xs lines0 story,
+  parse pp is_call xs lines0 = POk story -> story_params_unreserved story.
+Proof. exact parse_ok_params_unreserved_lemma. Qed.
+Print Assumptions compiled_parameter_names_not_reserved.
+
+(* F07e: the keywords of a validated call (of a passage with parameters) are distinct, so the association list is
+   the dict: the value the engine finds for a keyword is the value of the ONLY entry of that name *)
+Theorem validated_call_keywords_distinct : forall pp is_call orc passages,
+  shape_agrees pp orc ->
+  forall tg args tp,
+  validate_single_call pp is_call passages tg args = POk tt ->
+  String.eqb tg "@join" = false -> lookup tg passages = Some tp ->
+  forall ctx pos kws,
+  params tp <> [] -> o_args orc ctx args = Ok (pos, kws) ->
+  NoDup (map fst kws) /\ (forall k v, In (k, v) kws -> lookup k kws = Some v).
+Proof. exact validated_call_keywords_distinct_lemma. Qed.
+Print Assumptions validated_call_keywords_distinct.
+
+(* the hypothesis of bind_is_python_call, derived: the dict built for a validated call of a signature without
+   reserved names has the markers arg_0..arg_{k-1} of its k positional values and no other *)
+Theorem validated_call_positional_prefix : forall pp is_call orc passages,
+  shape_agrees pp orc ->
+  forall tg args tp,
+  validate_single_call pp is_call passages tg args = POk tt ->
+  String.eqb tg "@join" = false -> lookup tg passages = Some tp ->
+  forall ctx pos kws,
+  params tp <> [] -> unreserved (map pname (params tp)) -> o_args orc ctx args = Ok (pos, kws) ->
+  positional_prefix (number_args 0 pos ++ kws) (List.length pos).
+Proof. exact validated_call_positional_prefix_lemma. Qed.
+Print Assumptions validated_call_positional_prefix.
+
+(* one call site: sig_ok = distinct names, none reserved (every compiled story) *)
+Theorem validated_call_binds_like_python : forall pp is_call orc passages,
+  shape_agrees pp orc ->
+  forall tg args tp,
+  validate_single_call pp is_call passages tg args = POk tt ->
+  String.eqb tg "@join" = false -> lookup tg passages = Some tp ->
+  sig_ok (params tp) ->
+  forall ctx pos kws,
+  o_args orc ctx args = Ok (pos, kws) ->
+  bind_arguments orc ctx (params tp) (number_args 0 pos ++ kws) 0 [] = py_call orc ctx (params tp) pos kws /\
+  bind_arguments orc ctx (params tp) (number_args 0 pos ++ kws) 0 [] =
+    py_bind orc ctx (params tp) (number_args 0 pos ++ kws).
+Proof. exact validated_call_binds_like_python_lemma. Qed.
+Print Assumptions validated_call_binds_like_python.
+
+(* ... for the dict goto really builds (empty for no / blank argument text) *)
+Theorem validated_engine_dict_binds_like_python : forall pp is_call orc passages,
+  shape_agrees pp orc ->
+  forall tg args tp,
+  validate_single_call pp is_call passages tg args = POk tt ->
+  String.eqb tg "@join" = false -> lookup tg passages = Some tp ->
+  forall ctx ad,
+  sig_ok (params tp) -> engine_arg_dict orc ctx args = Ok ad ->
+  exists pos kws, ad = number_args 0 pos ++ kws /\
+    bind_arguments orc ctx (params tp) ad 0 [] = py_call orc ctx (params tp) pos kws /\
+    bind_arguments orc ctx (params tp) ad 0 [] = py_bind orc ctx (params tp) ad.
+Proof. exact validated_engine_dict_binds_like_python_lemma. Qed.
+Print Assumptions validated_engine_dict_binds_like_python.
+
+(* why "no reserved name" is a hypothesis of the call-site theorems: T(a, arg_0=5) called as T(1) passes the validator,
+   Python binds arg_0 = 5, the engine binds arg_0 = 1 (the minimal story of proposed_fixes/F07d) *)
+Theorem unreserved_parameter_names_needed :
+  validate_single_call one_arg_pp (fun _ => true) marker_sig_passages "T" "1" = POk tt /\
+  shape_agrees one_arg_pp five_orc /\ NoDup (map pname marker_sig) /\
+  bind_arguments five_orc [] marker_sig (number_args 0 [VInt 1] ++ []) 0 [] =
+    Ok [("a"%string, VInt 1); ("arg_0"%string, VInt 1)] /\
+  py_call five_orc [] marker_sig [VInt 1] [] = Ok [("a"%string, VInt 1); ("arg_0"%string, VInt 5)].
+Proof. exact unreserved_names_needed. Qed.
+Print Assumptions unreserved_parameter_names_needed.
+
+(* ---- every story the compiler returns (arbitrary extractors and oracles): NO side condition ---- *)
+
+(* a jump token at any depth of any passage: if its argument text evaluates, the engine binds the target's
+   parameters exactly as Python's call rule says *)
+Theorem compiled_jump_site_binds_like_python : forall pp is_call xs lines0 story,
+  parse pp is_call xs lines0 = POk story ->
+  forall orc, shape_agrees pp orc ->
+  forall pid p tg a, get_passage story pid = Some p -> passage_jump p tg a ->
+  exists tp, get_passage story tg = Some tp /\
+    forall ctx pos kws, o_args orc ctx a = Ok (pos, kws) ->
+      bind_arguments orc ctx (params tp) (number_args 0 pos ++ kws) 0 [] = py_call orc ctx (params tp) pos kws /\
+      bind_arguments orc ctx (params tp) (number_args 0 pos ++ kws) 0 [] =
+        py_bind orc ctx (params tp) (number_args 0 pos ++ kws).
+Proof. exact parse_ok_jump_site_binds_like_python_lemma. Qed.
+Print Assumptions compiled_jump_site_binds_like_python.
+
+(* a choice offered in ANY state a history can reach, other than `-> @join` *)
+Theorem compiled_offered_choice_binds_like_python : forall pp is_call xs lines0 story,
+  parse pp is_call xs lines0 = POk story ->
+  forall orc ctxkeys, shape_agrees pp orc ->
+  forall e rc, reach orc ctxkeys story e -> In rc (o_choices (current_out e)) ->
+  ch_target (rc_choice rc) <> "@join"%string ->
+  exists tp, get_passage story (ch_target (rc_choice rc)) = Some tp /\
+    forall ctx pos kws, o_args orc ctx (ch_args (rc_choice rc)) = Ok (pos, kws) ->
+      bind_arguments orc ctx (params tp) (number_args 0 pos ++ kws) 0 [] = py_call orc ctx (params tp) pos kws /\
+      bind_arguments orc ctx (params tp) (number_args 0 pos ++ kws) 0 [] =
+        py_bind orc ctx (params tp) (number_args 0 pos ++ kws).
+Proof. exact parse_ok_offered_choice_binds_like_python_lemma. Qed.
+Print Assumptions compiled_offered_choice_binds_like_python.
+
+(* ... and its argument dict is a genuine dict with exactly the positional markers of its positional values *)
+Theorem compiled_offered_choice_argument_dict : forall pp is_call xs lines0 story,
+  parse pp is_call xs lines0 = POk story ->
+  forall orc ctxkeys, shape_agrees pp orc ->
+  forall e rc, reach orc ctxkeys story e -> In rc (o_choices (current_out e)) ->
+  ch_target (rc_choice rc) <> "@join"%string ->
+  exists tp, get_passage story (ch_target (rc_choice rc)) = Some tp /\
+    forall ctx pos kws, params tp <> [] -> o_args orc ctx (ch_args (rc_choice rc)) = Ok (pos, kws) ->
+      NoDup (map fst kws) /\ (forall k v, In (k, v) kws -> lookup k kws = Some v) /\
+      positional_prefix (number_args 0 pos ++ kws) (List.length pos).
+Proof. exact parse_ok_offered_choice_dict_lemma. Qed.
+Print Assumptions compiled_offered_choice_argument_dict.
+
 (* ---------------------------------------------------------------------------------------- *)
 (* non-vacuity: a signature T(p, q=p + 1), a table of argument strings that fills BOTH oracles (as the harness
    fills both from one ast.parse), and every kind of call shape *)
@@ -290,6 +434,7 @@ Definition ex_table (a : string) : option (list value * list (string * value)) :
   else if String.eqb a "1, zz=3" then Some ([VInt 1], [("zz", VInt 3)])
   else if String.eqb a "1, p=2" then Some ([VInt 1], [("p", VInt 2)])
   else if String.eqb a "q=5" then Some ([], [("q", VInt 5)])
+  else if String.eqb a "p=1, p=2" then Some ([], [("p", VInt 1); ("p", VInt 2)])
   else None.
 Definition ex_pp : pyparse :=
   mkPyparse (fun _ => true)
@@ -348,6 +493,29 @@ Example ex_missing : ex_validate "q=5" = PDiag (DSyntax "call:missing-required" 
 Proof. split; vm_compute; reflexivity. Qed.
 Example ex_missing_all : ex_validate "" = PDiag (DSyntax "call:missing-required" 0) /\ ex_bind "" = Exc ValueError.
 Proof. split; vm_compute; reflexivity. Qed.
+
+(* a repeated keyword (fix F07e): rejected as malformed arguments; the model engine would have bound the first
+   value, the real engine's dict the last *)
+Example ex_repeated_keyword : ex_validate "p=1, p=2" = PDiag (DSyntax "call:malformed-arguments" 0) /\
+                              ex_bind "p=1, p=2" = Ok [("p", VInt 1); ("q", VInt 2)].
+Proof. split; vm_compute; reflexivity. Qed.
+(* the accepted shapes bind as py_call says, read off the call itself *)
+Example ex_py_call : py_call ex_orc [] (params ex_T) [VInt 1] [("q", VInt 5)] = ex_bind "1, q=5" /\
+                     py_call ex_orc [] (params ex_T) [] [("q", VInt 5); ("p", VInt 1)] = ex_bind "q=5, p=1" /\
+                     py_call ex_orc [] (params ex_T) [VInt 1] [] = ex_bind "1".
+Proof. repeat split; vm_compute; reflexivity. Qed.
+(* a header with a reserved parameter name (fix F07d) is refused; names that merely look similar are not *)
+Example ex_reserved_header :
+  parse_passage_params "a, arg_0=5" = PDiag (DSyntax "params:reserved-name" 0) /\
+  parse_passage_params "arg_12" = PDiag (DSyntax "params:reserved-name" 0) /\
+  parse_passage_params "arg_x, arg, my_arg_0, arg_0x, arg_, Arg_0" =
+    POk [mkParam "arg_x" None; mkParam "arg" None; mkParam "my_arg_0" None; mkParam "arg_0x" None;
+         mkParam "arg_" None; mkParam "Arg_0" None].
+Proof. repeat split; vm_compute; reflexivity. Qed.
+Example ex_reserved_story_rejected :
+  parse ex_pp (fun _ => true) no_extractors [":: Start"; "hi"; "+ [Go] -> T(1)"; ""; ":: T(a, arg_0=5)"; "T {a} {arg_0}"] =
+  PDiag (DSyntax "params:reserved-name" 4).
+Proof. vm_compute. reflexivity. Qed.
 
 (* the hypotheses of the history theorem are satisfiable: a compiled story with two call sites and a jump *)
 Definition ex_lines : list string :=
